@@ -19,12 +19,18 @@ type wfGen struct {
 	FuelMax   int
 	// FlowRetry: flows get a retry budget of 1..3 (see FlowSpec.N).
 	FlowRetry bool
+	// Recursion: connection targets may be any node - the flow itself or a later flow -
+	// (start nodes and sources always have a smaller index, so every activation of a flow runs
+	// at least one leaf and the fuel bounds the nesting depth).
+	Recursion bool
+	// Twins: sometimes make two plain leaves share an address (LeafSpec.TwinOf).
+	Twins bool
 	// PreferFlows biases start nodes and connection sources towards flows used as members.
 	PreferFlows bool
 }
 
 // error flavours a scripted callback can fail with (see mkErr)
-var errFlavors = []int{1, 2, 3, 4, 7, 8, 9}
+var errFlavors = []int{1, 2, 3, 4, 7, 8, 9, 10, 11}
 
 var prefixActions = []string{"a", "ab", "abc", "", "default"}
 
@@ -117,6 +123,14 @@ func (g wfGen) gen(rt *rapid.T) WF {
 	for i := 0; i < nl; i++ {
 		w.Nodes = append(w.Nodes, NodeSpec{Leaf: g.leaf(rt)})
 	}
+	if g.Twins {
+		for i := 1; i < nl; i++ {
+			if w.Nodes[i].Leaf.Kind == KPlain && w.Nodes[i-1].Leaf.Kind == KPlain && w.Nodes[i-1].Leaf.TwinOf == nil && rapid.Bool().Draw(rt, "twin") {
+				j := i - 1
+				w.Nodes[i].Leaf.TwinOf = &j
+			}
+		}
+	}
 	nf := 0
 	if g.MaxFlows > 0 {
 		nf = rapid.IntRange(1, g.MaxFlows).Draw(rt, "nflows")
@@ -139,6 +153,16 @@ func (g wfGen) gen(rt *rapid.T) WF {
 				To:     rapid.IntRange(-1, avail-1).Draw(rt, "to"),
 			})
 		}
+		if g.Recursion {
+			nr := rapid.IntRange(0, 3).Draw(rt, "nrec")
+			for c := 0; c < nr; c++ {
+				fs.Conns = append(fs.Conns, Conn{
+					From:   rapid.IntRange(0, avail-1).Draw(rt, "rfrom"),
+					Action: rapid.SampledFrom(g.Actions).Draw(rt, "raction"),
+					To:     rapid.IntRange(avail, nl+nf-1).Draw(rt, "rto"), // this flow or a later one
+				})
+			}
+		}
 		if g.FlowRetry {
 			fs.N = rapid.IntRange(1, 3).Draw(rt, "flown")
 			if g.Waits && rapid.Bool().Draw(rt, "flowwait") {
@@ -160,23 +184,42 @@ func (g wfGen) gen(rt *rapid.T) WF {
 }
 
 // depth of node i (leaf = 0).
-func (w *WF) depth(i int) int {
+func (w *WF) depth(i int) int { return w.depthGuard(i, map[int]bool{}) }
+
+func (w *WF) depthGuard(i int, onPath map[int]bool) int {
 	ns := w.Nodes[i]
-	if ns.Leaf != nil {
+	if ns.Leaf != nil || onPath[i] {
 		return 0
 	}
-	d := w.depth(ns.Flow.Start)
+	onPath[i] = true
+	defer delete(onPath, i)
+	d := w.depthGuard(ns.Flow.Start, onPath)
 	for _, c := range ns.Flow.Conns {
-		if x := w.depth(c.From); x > d {
+		if x := w.depthGuard(c.From, onPath); x > d {
 			d = x
 		}
 		if c.To >= 0 {
-			if x := w.depth(c.To); x > d {
+			if x := w.depthGuard(c.To, onPath); x > d {
 				d = x
 			}
 		}
 	}
 	return d + 1
+}
+
+// recursive reports whether some flow can (transitively) contain itself.
+func (w *WF) recursive() bool {
+	for i, ns := range w.Nodes {
+		if ns.Flow == nil {
+			continue
+		}
+		for _, c := range ns.Flow.Conns {
+			if c.To >= i || c.From >= i {
+				return true
+			}
+		}
+	}
+	return false
 }
 
 func (w *WF) runs() int {
